@@ -502,21 +502,42 @@ def _maps(other):
 
 # ------------------------------------------------------------------------------------------ harnesses: Output
 
-def h_output(s: str, times: int, comma: bool, mi: int, on_copy: bool, n: int, slot: str, form: int = 0) -> None:
-    """Output.copy(): every field (incl. an arbitrary integer `times`) survives; one mutation of either side is invisible on the other."""
+TIMES = [-1, 1, 0, 7, 2 ** 31]
+INTS = [16, 0, 2 ** 31]
+
+
+def h_output(s: str, ti: int, comma: bool, mi: int, on_copy: bool, n: int, slot: str, form: int = 0) -> None:
+    """Output.copy(): every field survives (times by index from TIMES), export identical; one mutation of either side is invisible on the
+    other."""
     assume(len(s) == n)
-    o = _mk_output(slot, s, form, times)
+    o = _mk_output(slot, s, form, pick(TIMES, ti))
     o.comma_sep = comma
     c = o.copy()
     check(c is not o, "Output.copy() returned the same object")
-    check(c.times == o.times, "Output.copy(): times", o.times, c.times)
     complete_and_independent(o, c, mi, on_copy, "Output.copy()")
 
 
-def h_output_w(s: str, times: int, comma: bool, mi: int, on_copy: bool, n: int, slot: str, form: int = 0) -> None:
-    h_output(s, times, comma, mi, on_copy, n, slot, form)
+def h_output_w(s: str, ti: int, comma: bool, mi: int, on_copy: bool, n: int, slot: str, form: int = 0) -> None:
+    h_output(s, ti, comma, mi, on_copy, n, slot, form)
     assume(mi >= 0)
     raise Fail("reached")
+
+
+def h_output_fields(s: str, times: int, comma: bool, once: bool, n: int, slot: str, form: int = 0) -> None:
+    """Output.copy() field for field, for ALL integers `times` (no text conversion on this path: the int stays symbolic), built with
+    times= or with only_once=."""
+    import srctools.vmf as vmf
+    assume(len(s) == n)
+    o = _mk_output(slot, s, form, times)
+    if once:
+        o = vmf.Output(o.output, o.target, o.input, o.params, o.delay, only_once=True, inst_out=o.inst_out, inst_in=o.inst_in)
+    o.comma_sep = comma
+    c = o.copy()
+    check(c is not o, "Output.copy() returned the same object")
+    check(c.times == o.times, "Output.copy(): times differs", o.times, c.times)
+    check(c.only_once == o.only_once, "Output.copy(): only_once differs")
+    a, b = snap(o), snap(c)
+    check(a == b, "Output.copy(): copy is not field-for-field equal to the source")
 
 
 # ------------------------------------------------------------------------------------------ harnesses: Side / Solid
@@ -527,11 +548,12 @@ def _copy_solidlike(obj, m2, mapping):
     return obj.copy(vmf_file=m2, side_mapping=mapping)
 
 
-def h_side(s: str, lm: int, sm: int, mi: int, on_copy: bool, n: int, kind: str = "plain", other: bool = False, lo: int = -1, hi: int = 10 ** 9,
-           power: int = 1, mb: int = 1, both_exports: bool = False) -> None:
+def h_side(s: str, li: int, mi: int, on_copy: bool, n: int, kind: str = "plain", other: bool = False, lo: int = -1, hi: int = 10 ** 9,
+           power: int = 1, mb: int = 1, both_exports: bool = False, sm: int = 5) -> None:
     """Side.copy(): plain face, face with Strata point data, displacement face (alpha, multiblend, allowed verts, triangle tags)."""
     import srctools.vmf as vmf
     assume(len(s) == n)
+    lm = pick(INTS, li)
     m, m2 = _maps(other)
     if kind == "disp":
         side = _mk_disp(m, power, mb, mat=s)
@@ -547,17 +569,18 @@ def h_side(s: str, lm: int, sm: int, mi: int, on_copy: bool, n: int, kind: str =
     complete_and_independent(side, c, mi, on_copy, f"Side.copy()[{kind}]", lo, hi, exports=(True, False) if both_exports else (True,))
 
 
-def h_side_w(s: str, lm: int, sm: int, mi: int, on_copy: bool, n: int, kind: str = "plain", other: bool = False, lo: int = -1, hi: int = 10 ** 9,
-             power: int = 1, mb: int = 1, both_exports: bool = False) -> None:
-    h_side(s, lm, sm, mi, on_copy, n, kind, other, lo, hi, power, mb, both_exports)
+def h_side_w(s: str, li: int, mi: int, on_copy: bool, n: int, kind: str = "plain", other: bool = False, lo: int = -1, hi: int = 10 ** 9,
+             power: int = 1, mb: int = 1, both_exports: bool = False, sm: int = 5) -> None:
+    h_side(s, li, mi, on_copy, n, kind, other, lo, hi, power, mb, both_exports, sm)
     assume(mi >= 0)
     raise Fail("reached")
 
 
-def h_solid(s: str, lm: int, hidden: bool, vs: bool, cordon: bool, mi: int, on_copy: bool, n: int, kind: str = "wedge", other: bool = False,
+def h_solid(s: str, li: int, hidden: bool, vs: bool, cordon: bool, mi: int, on_copy: bool, n: int, kind: str = "wedge", other: bool = False,
             keep_vis: bool = True, lo: int = -1, hi: int = 10 ** 9, power: int = 1, mb: int = 1) -> None:
     """Solid.copy(): wedge / prism with point data / brush with a displacement face; group, visgroups, colour, flags."""
     assume(len(s) == n)
+    lm = pick(INTS, li)
     m, m2 = _maps(other)
     sol = _mk_solid(m, s, kind=kind, hidden=hidden, vs=vs, cordon=cordon, lightmap=lm, power=power, mb=mb)
     mapping = {}
@@ -573,21 +596,22 @@ def h_solid(s: str, lm: int, hidden: bool, vs: bool, cordon: bool, mi: int, on_c
     complete_and_independent(sol, c, mi, on_copy, f"Solid.copy()[{kind}]", lo, hi)
 
 
-def h_solid_w(s: str, lm: int, hidden: bool, vs: bool, cordon: bool, mi: int, on_copy: bool, n: int, kind: str = "wedge", other: bool = False,
+def h_solid_w(s: str, li: int, hidden: bool, vs: bool, cordon: bool, mi: int, on_copy: bool, n: int, kind: str = "wedge", other: bool = False,
               keep_vis: bool = True, lo: int = -1, hi: int = 10 ** 9, power: int = 1, mb: int = 1) -> None:
-    h_solid(s, lm, hidden, vs, cordon, mi, on_copy, n, kind, other, keep_vis, lo, hi, power, mb)
+    h_solid(s, li, hidden, vs, cordon, mi, on_copy, n, kind, other, keep_vis, lo, hi, power, mb)
     assume(mi >= 0)
     raise Fail("reached")
 
 
 # ------------------------------------------------------------------------------------------ harnesses: Entity
 
-def h_entity(s: str, times: int, hidden: bool, vs: bool, mi: int, on_copy: bool, n: int, slot: str = "value", brush: str = "", other: bool = False,
+def h_entity(s: str, ti: int, hidden: bool, vs: bool, mi: int, on_copy: bool, n: int, slot: str = "value", brush: str = "", other: bool = False,
              in_map: bool = False, ks: int = 0, lo: int = -1, hi: int = 10 ** 9) -> None:
     """Entity.copy(): keys, fixups, outputs (arbitrary `times`), solids (optionally a displacement brush), editor data."""
     assume(len(s) == n)
     if slot == "logical_pos":
         assume(n > 0)
+    times = pick(TIMES, ti)
     m, m2 = _maps(other)
     solids = []
     if brush:
@@ -603,9 +627,9 @@ def h_entity(s: str, times: int, hidden: bool, vs: bool, mi: int, on_copy: bool,
     complete_and_independent(e, c, mi, on_copy, "Entity.copy()", lo, hi)
 
 
-def h_entity_w(s: str, times: int, hidden: bool, vs: bool, mi: int, on_copy: bool, n: int, slot: str = "value", brush: str = "", other: bool = False,
+def h_entity_w(s: str, ti: int, hidden: bool, vs: bool, mi: int, on_copy: bool, n: int, slot: str = "value", brush: str = "", other: bool = False,
                in_map: bool = False, ks: int = 0, lo: int = -1, hi: int = 10 ** 9) -> None:
-    h_entity(s, times, hidden, vs, mi, on_copy, n, slot, brush, other, in_map, ks, lo, hi)
+    h_entity(s, ti, hidden, vs, mi, on_copy, n, slot, brush, other, in_map, ks, lo, hi)
     assume(mi >= 0)
     raise Fail("reached")
 
@@ -974,8 +998,10 @@ def obligations(tier):
     if not q:
         sl += [{"n": 1, "slot": slot, "form": 4} for slot in OUT_SLOTS]
     obls.append(Obl("output", MOD, "h_output", slices=sl, budget_s=600, per_path_s=60,
-                    desc="Output.copy(): symbolic str leaf, arbitrary integer times, symbolic comma_sep; complete; one mutation invisible on the other side",
-                    bound="one str leaf of exact length, all ints for times"))
+                    desc="Output.copy(): symbolic str leaf, times by index, symbolic comma_sep; complete; one mutation invisible on the other side",
+                    bound="one str leaf of exact length, times from [-1,1,0,7,2**31]"))
+    obls.append(Obl("output_fields", MOD, "h_output_fields", slices=[{"n": 1, "slot": "params", "form": f} for f in range(len(OUT_FORMS))],
+                    budget_s=600, per_path_s=60, desc="Output.copy() field for field for every integer times (and only_once)", bound="all ints"))
     obls.append(Obl("output.witness", MOD, "h_output_w", slices=[{"n": 1, "slot": "target", "form": 0}], budget_s=120, per_path_s=60, witness=True))
 
     # --- Side
